@@ -357,6 +357,8 @@ class PiTag:
 
     def __float__(self):
         c = self.coef
+        if isinstance(c, Sym) and c.const() is not None:
+            c = float(c.const())
         if isinstance(c, Sym):
             raise HarnessError('float(pi*sym)')
         return float(_math.pi * c)
@@ -395,6 +397,8 @@ class MathShim:
         self.inf = _math.inf
         self.angles = Angle()
         self.trig_mode = 'tanhalf'
+        self.trig_base = 1
+        self.trig_K = None
         self.trig_log = []
 
     def __getattr__(self, name):
@@ -446,6 +450,8 @@ class MathShim:
         c = arg.coef
         if not isinstance(c, Sym):
             return None
+        if c.const() is not None and self.trig_mode != 'interval':
+            return None
         return c
 
     def sin(self, arg):
@@ -462,21 +468,79 @@ class MathShim:
 
     def _trig(self, c, which):
         """sin / cos of pi*c where c is a Sym of the form k*x (k a concrete integer, x a base Sym)."""
+        if self.trig_mode == 'interval':
+            return self._trig_interval(c, which)
+        cc = c.const()
+        if cc is not None:
+            v = _math.pi * float(cc)
+            return _math.sin(v) if which == 'sin' else _math.cos(v)
         k, x = _linear_split(c)
         if k is None:
             raise HarnessError('angle %s is not an integer multiple of a base variable' % c)
         if k == 0:
             return 0.0 if which == 'sin' else 1.0
+        if k % self.trig_base:
+            raise HarnessError('angle multiple %d is not a multiple of the base %d' % (k, self.trig_base))
+        k //= self.trig_base
         t = self.angles.tvar(x)
+        ak = abs(k)
+        if self.trig_K is not None:
+            # exact rational functions with ONE shared denominator D^K, D = 1 + t^2 (t = tan(base*pi*x/2))
+            if ak > self.trig_K:
+                raise HarnessError('angle multiple %d exceeds trig_K=%d' % (ak, self.trig_K))
+            C, S = self._poly_multiple(x, t, ak)
+            D = 1 + t.t * t.t
+            pad = self._dpow(x, D, self.trig_K - ak)
+            num = (C if which == 'cos' else (S if k > 0 else -S)) * pad
+            return Sym(num, self._dpow(x, D, self.trig_K))
         # base: theta = pi*x ; t = tan(theta/2)
         den = 1 + t * t
         c1 = (1 - t * t) / den
         s1 = (2 * t) / den
-        ak = abs(k)
         ck, sk = self._multiple(x, ak, c1, s1)
         if which == 'cos':
             return ck
         return sk if k > 0 else -sk
+
+    def _dpow(self, x, D, n):
+        cache = self.__dict__.setdefault('_dp', {})
+        key = (x.t.get_id(), n)
+        if key not in cache:
+            p = z3.RealVal(1)
+            for _ in range(n):
+                p = p * D
+            cache[key] = z3.simplify(p) if n == 0 else p
+        return cache[key]
+
+    def _poly_multiple(self, x, t, k):
+        """numerators of cos(k*theta), sin(k*theta) over D^k:  C_1 = 1 - t^2, S_1 = 2t, Chebyshev-style recurrence"""
+        cache = self.__dict__.setdefault('_pm', {})
+        key = (x.t.get_id(), k)
+        if key in cache:
+            return cache[key]
+        tt = t.t
+        if k == 0:
+            r = (z3.RealVal(1), z3.RealVal(0))
+        elif k == 1:
+            r = (1 - tt * tt, 2 * tt)
+        else:
+            cp, sp = self._poly_multiple(x, t, k - 1)
+            c1, s1 = self._poly_multiple(x, t, 1)
+            r = (cp * c1 - sp * s1, sp * c1 + cp * s1)
+        cache[key] = r
+        return r
+
+    def _trig_interval(self, c, which):
+        """sound relaxation: sin / cos of anything is SOME number in [-1, 1] (one fresh real per distinct argument)"""
+        cache = self.__dict__.setdefault('_ti', {})
+        key = (which, c.t.get_id() if isinstance(c, Sym) else repr(c))
+        if key not in cache:
+            ex = core.CUR
+            v = ex.fresh_real(which)
+            ex.assume_def(z3.And(v >= -1, v <= 1))
+            cache[key] = Sym(v)
+            self.trig_log.append(key)
+        return cache[key]
 
     def _multiple(self, x, k, c1, s1):
         key = (x.t.get_id(), k)
